@@ -933,6 +933,33 @@ def main():
              'route_kinds': {}, 'manifest_sizes': {}, 'real_script_files_compiled': 0}
     cases = []
     try:
+        # ---- the production wiring (web_module.configure(), what wsgi.py / flask_module call): every
+        # request handler asks the injector for THE web application; a repeated request can only see
+        # the job an earlier request started if they are given the same object
+        ini = os.path.join(env.root, 'c20.ini')
+        with open(ini, 'w') as f:
+            f.write('[settings]\nuse_fakes = True\nlog_to_console = False\n')
+        old_ini = os.environ.get('BARDOLPH_INI')
+        os.environ['BARDOLPH_INI'] = ini
+        try:
+            os.chdir(env.root)
+            from web import web_module
+            web_module.configure()
+            first = env.injection.provide(env.i_web.WebApp)
+            second = env.injection.provide(env.i_web.WebApp)
+            chk.count()
+            if first is not second or first._jobs is not second._jobs:
+                chk.violation('web-app-not-shared-between-requests',
+                              'after web_module.configure() two requests are handed two different WebApp '
+                              'objects (each with its own job control): a job started by one request is '
+                              'unknown to the next', {'how': 'web_module.configure(); provide(WebApp) twice'})
+        finally:
+            if old_ini is None:
+                os.environ.pop('BARDOLPH_INI', None)
+            else:
+                os.environ['BARDOLPH_INI'] = old_ini
+            env.settings.using(env.base_settings).configure()
+            env.injection.bind_instance(env.web_app.WebApp()).to(env.i_web.WebApp)
         # ---- derivation and escaping, function level (no threads)
         deriv = []
         n_deriv = 4000 if not chk.thorough else 40000
